@@ -33,7 +33,7 @@ PINNED = {
     "cst_parser.rs:invalid_syntax": "15d94f886caea9e5",
     "cst_parser.rs:is_at_end": "d8955e9842817997",
     "cst_parser.rs:is_record_expr": "378b91bb96ecab85",
-    "cst_parser.rs:is_tuple_expr": "ce2fd1050642e8d7",
+    "cst_parser.rs:is_tuple_expr": "e38d3d274ae0740f",
     "cst_parser.rs:is_tuple_pattern_in_constructor": "a3173c085e382f1f",
     "cst_parser.rs:is_type_ident_after_pipe": "76310e8006b64d8f",
     "cst_parser.rs:is_type_start_after_pipe": "078ebdd962b4bf15",
